@@ -405,3 +405,22 @@ def stream_parts(fn, stream_text):
         if fn.text(cur) == stream_text:
             parts.append(fn.text(val))
     return parts
+
+
+def loop_header(fn, loop):
+    """Text of a for-loop's init (declarations with their initialisers), condition and increment."""
+    s = fn.nodes[loop["stmt"]]
+    parts = []
+    if "init" in s:
+        n = fn.nodes[s["init"]]
+        if n["k"] == "decl":
+            for v in n.get("vars", []):
+                parts.append("%s = %s" % (v["name"], fn.text(v["init"]) if "init" in v else "?"))
+        else:
+            parts.append(fn.text(s["init"]))
+    for k in ("c", "inc"):
+        if k in s:
+            parts.append(fn.text(s[k]))
+    if s["k"] == "rangefor":
+        parts.append("range " + fn.text(s["range"]))
+    return " ; ".join(parts)
